@@ -84,6 +84,13 @@ def reward(rng, general):
 def gen_case(rng, tier):
     kind = rng.choice(["ql", "ql", "sarsa", "esarsa", "hyst", "dq", "dq", "sarsal", "sarsal", "octl", "octl", "octl", "oevl", "oevl"])
     nS, nA, general, alpha, gamma, n, every = gen_common(rng, tier)
+    # tie regime: alpha = 1, one constant non-zero dyadic reward, every action of a state tried in a row with
+    # the same successor => exact ties at NON-ZERO maxima in the rows that later serve as successor rows
+    # (first-max tie-breaking of maxCoeff / the greedy scan, and the single greedy mass of the expected backup)
+    tie = rng.random() < 0.2
+    if tie:
+        general = False; alpha = "1"; gamma = rng.choice(["1/2", "3/4"]); every = 1
+        nS = rng.choice([1, 2, 2, 3]); nA = rng.choice([2, 2, 3, 4]); n = rng.randint(nA + 1, 36)
     # a few states/actions dominate so that revisits (and trace hits) are frequent
     def st(): return rng.randrange(nS)
     def ac(): return rng.randrange(nA)
@@ -95,6 +102,7 @@ def gen_case(rng, tier):
         toks += [nS, nA, alpha, beta, gamma, every, n]
     elif kind in ("sarsal", "octl", "oevl"):
         lam = rng.choice(["0", "1/2", "1"]) if not general or rng.random() < 0.5 else (0.9).hex()
+        if tie: lam = rng.choice(["0", "0", "1/2"])
         tol = rng.choice(["1/64", "1/8", "1/1024", "0", "1/2"]) if not general else rng.choice([(0.001).hex(), (0.01).hex()])
         if kind == "sarsal":
             toks += [nS, nA, alpha, gamma, lam, tol, every, n]
@@ -115,7 +123,7 @@ def gen_case(rng, tier):
             toks += [every, n]
     # extremal histories (constant extreme reward, tiny state space) drive the tables to the
     # boundary of the box, where a wrong bootstrap term leaves it
-    extreme = kind in ("ql", "sarsa", "esarsa", "hyst", "dq") and rng.random() < 0.2
+    extreme = (not tie) and kind in ("ql", "sarsa", "esarsa", "hyst", "dq") and rng.random() < 0.2
     if extreme:
         rconst = rng.choice(["12", "-12", "8", "-5"])
         nS0 = min(nS, 2)
@@ -124,7 +132,15 @@ def gen_case(rng, tier):
     chained = rng.random() < 0.7
     s = st()
     # run-time setters (only right after a dump, so that a re-synchronised batch has constant parameters)
-    with_setters = rng.random() < 0.45
+    with_setters = (not tie) and rng.random() < 0.45
+    plan = []
+    if tie:
+        rc = rng.choice(["-1", "-2", "3", "1/2", "-3/2", "5"])
+        while len(plan) < n:
+            ps_, ps1 = st(), st()
+            acts = list(range(nA)); rng.shuffle(acts)
+            for pa in acts[:rng.choice([nA, nA, max(2, nA - 1)])]:
+                plan.append((ps_, pa, ps1))
     def setter():
         opts = ["A", "G"]
         if kind == "hyst": opts.append("B")
@@ -143,9 +159,10 @@ def gen_case(rng, tier):
         if with_setters and i % every == 0 and i > 0 and rng.random() < 0.25:
             for _ in range(rng.choice([1, 1, 2])): toks += setter()
         a = ac(); s1 = st() if rng.random() < 0.8 else s
+        if tie: s, a, s1 = plan[i]
         toks += [s, a, s1]
         if kind in ("sarsa", "sarsal"): toks.append(ac())
-        toks.append(rconst if extreme else reward(rng, general))
+        toks.append(rc if tie else rconst if extreme else reward(rng, general))
         if kind == "esarsa": toks += dist_row(rng, nA)
         s = s1 if chained else st()
     return " ".join(map(str, toks))
